@@ -211,6 +211,11 @@ func NewPeer(
 
 	bus.Publish(event.NewMessage(event.PeerInfoName, event.PeerInfo{Info: p.PeerInfo()}))
 
+	err = p.resetReplicatorRetries(ctx)
+	if err != nil {
+		return nil, err
+	}
+
 	go p.handleReplicatorRetries(ctx)
 
 	err = p.loadAndPublishReplicators(ctx)
